@@ -4,7 +4,7 @@
 # the touched package's own tests still pass with the patch. On success copies it to /verif/seeded/<Cnn>/.
 set -u
 ID=$1; PKG=$2; RUN=${3:-.}; shift; shift; [ $# -gt 0 ] && shift
-SRC=/var/tmp/seed-out/$ID; WT=/var/tmp/confirm-$$-$ID
+SRC=${SEED_SRC:-/var/tmp/seed-out}/$ID; DST=$ID${SEED_SUFFIX:-}; WT=/var/tmp/confirm-$$-$ID
 export GOFLAGS=-mod=mod GOPROXY=off
 git -C /repo worktree add --detach "$WT" HEAD -q || exit 9
 trap 'git -C /repo worktree remove --force "$WT" >/dev/null 2>&1; rm -rf "$WT"' EXIT
@@ -20,8 +20,8 @@ echo "== existing tests WITH patch (must pass)"
 go test -count=1 "./$PKG/..." "$@" >> "$SRC/confirm_tests.txt" 2>&1; C=$?; tail -4 "$SRC/confirm_tests.txt"
 echo "without=$A with=$B tests=$C"
 if [ $A -eq 0 ] && [ $B -ne 0 ] && [ $C -eq 0 ]; then
-  mkdir -p /verif/seeded/$ID && cp "$SRC/patch.diff" "$SRC/demo_test.go" "$SRC/meta.json" /verif/seeded/$ID/
-  echo "CONFIRMED -> /verif/seeded/$ID"
+  mkdir -p /verif/seeded/$DST && cp "$SRC/patch.diff" "$SRC/demo_test.go" "$SRC/meta.json" /verif/seeded/$DST/
+  echo "CONFIRMED -> /verif/seeded/$DST"
 else
   echo "NOT CONFIRMED"; exit 1
 fi
